@@ -19,7 +19,6 @@ __CPROVER_ensures(POST_OPT_PARSE_VALUE(__CPROVER_return_value, opt, length, resu
 ;
 
 /* ---- encoder side (C01/P1).  MAXOPTLEN = largest encodable value length (0xFFFF + 269). */
-#define MAXOPTLEN 65804u
 #define MIN_(a, b) ((a) < (b) ? (a) : (b))
 #define POST_SETHEADER_RET(ret, maxlen, d, l) ((ret) == ((maxlen) < HDRSZ(d, l) ? 0u : HDRSZ(d, l)))
 #define POST_SETHEADER_BYTES(ret, opt, d, l) \
